@@ -36,3 +36,11 @@ Lemma gen_default_deadline_wire :
   | Wire.DlOmitted => False
   end.
 Proof. vm_compute; reflexivity. Qed.
+(* serde_json hands a JSON ARRAY to a struct's visit_seq: which prefixes of each struct's array
+   form the real Deserialize impls accept (probing deserializer driving visit_seq) is what the
+   model's positional decoder (Wire.json_dec_fields_seq) assumes: exactly those whose missing
+   trailing fields all carry #[serde(default)] *)
+Lemma gen_seq_tables :
+  Wire.seq_table Wire.client_message_shape = Generated.cm_seq_table /\
+  Wire.seq_table Wire.response_shape = Generated.resp_seq_table.
+Proof. split; vm_compute; reflexivity. Qed.
